@@ -74,7 +74,8 @@ def gen(rng, tier, i):
     nstores = 1 if rng.random() < 0.4 else 2
     stores = []
     for _ in range(nstores):
-        stores.append({"budget": rng.choice([0, 3, 5, 8, 10, 12]), "gtp": rng.choice([0, 0, 4, 6]),
+        stores.append({"silent": rng.random() < 0.85,
+                       "budget": rng.choice([0, 3, 5, 8, 10, 12]), "gtp": rng.choice([0, 0, 4, 6]),
                        "nadh": rng.choice([0, 0, 3, 6]), "max_debt": rng.choice([0, 0, 6, 10]),
                        "regen": (rng.choice([1, 2, 3]) if rng.random() < (0.12 if tier == "quick" else 0.2) else 0)})
     ntasks = rng.choice([2, 2, 3])
@@ -88,7 +89,9 @@ def gen(rng, tier, i):
             a = amounts[(len(ops) + 3 * t) % len(amounts)]
             s = rng.randrange(nstores)
             kind = weighted(rng, [(4.5, "consume"), (1.5, "regenerate"), (1, "convert"),
-                                  (3.0 if nstores == 2 else 0.3, "transfer")])
+                                  (3.0 if nstores == 2 else 0.3, "transfer"),
+                                  # rarely used but locked public methods belong to the same critical-section family
+                                  (0.35, "reset"), (0.15, "dormancy_in"), (0.15, "dormancy_out")])
             if kind == "consume":
                 ops.append(["consume", s, a, weighted(rng, [(6, "atp"), (1.5, "gtp"), (1, "nadh")]),
                             rng.random() < 0.3, rng.choice([0, 0, 0, 10])])
@@ -96,6 +99,8 @@ def gen(rng, tier, i):
                 ops.append(["regenerate", s, a, weighted(rng, [(5, "atp"), (1, "gtp"), (1, "nadh")])])
             elif kind == "convert":
                 ops.append(["convert", s, a])
+            elif kind in ("reset", "dormancy_in", "dormancy_out"):
+                ops.append([kind, s])
             else:
                 d = (1 - s) if (nstores == 2 and rng.random() < 0.93) else s
                 ops.append(["transfer", s, d, a, weighted(rng, [(6, "atp"), (1, "gtp"), (1, "nadh")])])
@@ -136,7 +141,7 @@ class _Sink:
 
 def _mk_store(cfg):
     return ATP_Store(budget=cfg["budget"], gtp_budget=cfg["gtp"], nadh_reserve=cfg["nadh"],
-                     regeneration_rate=float(cfg["regen"]), max_debt=cfg["max_debt"], silent=True)
+                     regeneration_rate=float(cfg["regen"]), max_debt=cfg["max_debt"], silent=cfg.get("silent", True))
 
 
 def _state(st):
@@ -170,6 +175,12 @@ def _do(stores, op, sink=None):
         return stores[op[2]].regenerate(op[3], CUR[op[4]])
     if kind == "stop":
         return stores[op[1]].stop_regeneration()
+    if kind == "reset":
+        return stores[op[1]].reset()
+    if kind == "dormancy_in":
+        return stores[op[1]].enter_dormancy()
+    if kind == "dormancy_out":
+        return stores[op[1]].exit_dormancy()
     if kind == "loop_run":
         r = TOPO["loop"].run(op[1])
         return bool(r.blocked)
@@ -364,8 +375,8 @@ def run(plan, k):
                     f"final={final} returns={[(h['task'], h['op'][0], h['obs']) for h in hist]}")
     # lost statistic updates: total_consumed is the sum of successful spends
     for si, st in enumerate(stores):
-        if bad:
-            break
+        if bad or any(h["op"][0] == "reset" and h["op"][1] == si for h in hist):
+            continue
         want = sum(h["op"][2] for h in hist if h["op"][0] == "consume" and h["op"][1] == si and h["obs"] is True)
         got = st.get_statistics().get("total_consumed")
         if got is not None and got != want:
